@@ -188,6 +188,12 @@ def explore(ctx: Ctx, strategy, run_one, max_examples: int, salt=0, shrink=None)
         stats.violations.append(
             {'property': exc.prop, 'sig': exc.sig, 'msg': exc.msg, 'case': case, 'log': getattr(exc, 'log', None)}
         )
+    except Exception:
+        # harness error: keep the case that triggered it for debugging
+        os.makedirs(os.path.join(OUT_DIR, 'harness'), exist_ok=True)
+        with open(os.path.join(OUT_DIR, 'harness', f'{ctx.prop}-shard{ctx.shard}.json'), 'w', encoding='utf8') as fhandle:
+            json.dump({'case': holder.get('case')}, fhandle, default=str)
+        raise
 
 
 def ddmin_ops(case, exc, run_one, budget_s=45.0, key='ops'):
